@@ -18,7 +18,8 @@ from linear_operator import operators as O  # noqa: E402
 
 
 class Ctx:
-    def __init__(self, dtype=torch.float64, batch=(), seed=0, values="int", grad=None):
+    def __init__(self, dtype=torch.float64, batch=(), seed=0, values="int", grad=None, layout=None):
+        self.layout = layout  # memory layout of the floating-point leaves (vlib.monitor.lay); None = contiguous
         self.dtype = dtype
         self.batch = tuple(batch)
         self.seed = seed
@@ -33,7 +34,11 @@ class Ctx:
         g.manual_seed(h)
         return g
 
-    def register(self, name, t):
+    def register(self, name, t, nbatch=0):
+        if self.layout and self.layout != "contig" and torch.is_floating_point(t):
+            from .monitor import lay
+
+            t = lay(t, self.layout, expand_dim=0 if nbatch else None)
         if torch.is_floating_point(t) and self.grad is not None and (self.grad == "all" or name in self.grad):
             t.requires_grad_(True)
         self.leaves[name] = t
@@ -100,7 +105,7 @@ def leaf(ctx, path, kind, shape, batch=None):
         elif kind == "triu":
             pert = torch.triu(pert)
         t = t + pert
-    return ctx.register(name, t.contiguous())
+    return ctx.register(name, t.contiguous(), nbatch=len(batch))
 
 
 def bkron(a, b):
@@ -437,8 +442,8 @@ def build(term, ctx, path="r", batch=None):
     raise ValueError(f"unknown head {head}")
 
 
-def fresh(term, dtype=torch.float64, batch=(), seed=0, values="int", grad=None):
-    ctx = Ctx(dtype=dtype, batch=batch, seed=seed, values=values, grad=grad)
+def fresh(term, dtype=torch.float64, batch=(), seed=0, values="int", grad=None, layout=None):
+    ctx = Ctx(dtype=dtype, batch=batch, seed=seed, values=values, grad=grad, layout=layout)
     b = build(term, ctx)
     return b, ctx
 
